@@ -689,6 +689,7 @@ type Case17 struct {
 	Sweep bool         `json:"sweep,omitempty"` // drawn from the systematic small-pair list (c17sweep.go)
 	Aim   string       `json:"aim,omitempty"`   // infer: at run time one type parameter is renamed to the very name ("t<id>" / "s<id>") the checker is about to generate for one of its own fresh variables (a legal name: fresh means fresh for the terms at hand)
 	AimJ  int          `json:"aim_j,omitempty"`
+	Cross bool         `json:"cross,omitempty"` // equals: crossing DAG family
 	BotG  bool         `json:"bot_g,omitempty"` // match: the variable-free side contains the bottom type somewhere (pattern on the left, no function types: see DESIGN.md, X01)
 	GC    string       `json:"gc"`             // none | dense | sparse
 	Sim   simrt.Config `json:"sim"`
@@ -706,13 +707,72 @@ func genCase17(r *rng) *Case17 {
 	case 0, 1, 2:
 		c.Mode = "equals"
 		c.X = g.top(d, true, true)
-		switch r.intn(3) {
+		switch r.intn(4) {
 		case 0:
 			c.Y = permuteFields(c.X, r)
 		case 1:
 			c.Y = g.mutate17(c.X)
-		default:
+		case 2:
 			c.Y = c.X.clone()
+		default:
+			// crossing: both sides are DAGs over the same two composite sub-terms A and B,
+			// shared by pointer within each side, and differ in exactly one position whose
+			// two occupants have each been met before (paired with something else):
+			//   (A, B, A) vs (A', B', B')
+			// a cycle guard that remembers nodes instead of pairs calls them equal
+			a := g.ty(1+r.intn(2), false, false)
+			if !a.composite() || a.K == "tuple" {
+				a = &T17{K: r.pick([]string{"list", "maybe"}), A: []*T17{a}}
+			}
+			b := g.mutate17(a)
+			if b.canon() == a.canon() || !b.composite() || b.K == "tuple" {
+				b = &T17{K: "maybe", A: []*T17{a.clone()}}
+			}
+			if r.chance(0.3) {
+				// nested: B contains A
+				b = &T17{K: r.pick([]string{"list", "maybe"}), A: []*T17{a.clone()}}
+			}
+			n := 3 + r.intn(3)
+			xs, ys := make([]*T17, n), make([]*T17, n)
+			xs[0], xs[1] = a.clone(), b.clone()
+			for i := 2; i < n; i++ {
+				if r.chance(0.5) {
+					xs[i] = a.clone()
+				} else {
+					xs[i] = b.clone()
+				}
+			}
+			for i := n - 1; i > 0; i-- {
+				j := r.intn(i + 1)
+				xs[i], xs[j] = xs[j], xs[i]
+			}
+			for i := range xs {
+				ys[i] = xs[i].clone()
+			}
+			if !r.chance(0.15) { // sometimes no difference at all
+				j := r.intn(n)
+				if ys[j].canon() == a.canon() {
+					ys[j] = b.clone()
+				} else {
+					ys[j] = a.clone()
+				}
+			}
+			switch r.intn(3) {
+			case 0:
+				c.X, c.Y = &T17{K: "tuple", A: xs}, &T17{K: "tuple", A: ys}
+			case 1:
+				names := []string{"p", "q", "r", "s", "t"}[:n]
+				c.X = &T17{K: "obj", F: append([]string(nil), names...), A: xs}
+				c.Y = permuteFields(&T17{K: "obj", F: append([]string(nil), names...), A: ys}, r)
+			default:
+				c.X, c.Y = &T17{K: "fun", N: "f", A: xs}, &T17{K: "fun", N: "f", A: ys}
+			}
+			if r.chance(0.3) {
+				w := r.pick([]string{"list", "maybe"})
+				c.X, c.Y = &T17{K: w, A: []*T17{c.X}}, &T17{K: w, A: []*T17{c.Y}}
+			}
+			c.Share = !r.chance(0.1)
+			c.Cross = true
 		}
 		c.Z = permuteFields(c.Y, r)
 	case 3, 4, 5, 6:
@@ -1482,6 +1542,9 @@ func (c17) Batch(seed uint64, wid, batch, count int, deadline time.Time, emit fu
 		cn["fault_gc_fired"] += int64(res.GCs)
 		cn["api_calls_groups"] += int64(res.Calls)
 		cn["steps"] += int64(res.Steps)
+		if c.Cross {
+			cn["equals_crossing_dag_cases"]++
+		}
 		if c.Share {
 			cn["shared_subterm_cases"]++
 		}
